@@ -11,6 +11,7 @@ import (
 	"github.com/huderlem/poryscript/parser"
 
 	"pmc/internal/comp"
+	"pmc/internal/dict"
 	"pmc/internal/harness"
 )
 
@@ -290,6 +291,39 @@ func runC07(tier string) int {
 	if completed < maxLen {
 		r.NotExhaustive(fmt.Sprintf("completed atom sequences of length <= %d of planned <= %d", completed, maxLen))
 	}
+	// character classes: words that contain one representative of every Unicode general category, every non-ASCII white-space
+	// rune, combining marks, astral runes and the non-ASCII runes of the compiler's own source (a word is only ended by an ASCII
+	// space or a break code): every sequence of <= 2 atoms over the base and class atoms, and every (base, class, base) triple
+	var classAtoms []fmtAtom
+	classRunes := dict.CategoryRunes()
+	for _, cr := range dict.Runes(dict.Load(repoDir())) {
+		if cr >= 0x80 {
+			classRunes = append(classRunes, cr)
+		}
+	}
+	for _, cr := range classRunes {
+		classAtoms = append(classAtoms, wordAtom("a"+string(cr)+"b", "a", string(cr), "b"))
+	}
+	all := append(append([]fmtAtom{}, atoms...), classAtoms...)
+	nAll, nB, nC := uint64(len(all)), uint64(len(atoms)), uint64(len(classAtoms))
+	classDone := r.Parallel(nAll+nAll*nAll+nB*nC*nB, func(w int, idx uint64) {
+		var seq []fmtAtom
+		switch {
+		case idx < nAll:
+			seq = []fmtAtom{all[idx]}
+		case idx < nAll+nAll*nAll:
+			x := idx - nAll
+			seq = []fmtAtom{all[x%nAll], all[x/nAll]}
+		default:
+			x := idx - nAll - nAll*nAll
+			seq = []fmtAtom{atoms[x%nB], classAtoms[(x/nB)%nC], atoms[x/nB/nC]}
+		}
+		r.Add("class_rune_texts", 1)
+		c07EvalSeq(r, seq)
+	})
+	if !classDone {
+		r.NotExhaustive("character-class texts not completed")
+	}
 	// the size dimension: texts of K atoms for every K up to a bound (words of rotating widths, single and double
 	// spaces, a break code every few words)
 	maxK := 48
@@ -326,7 +360,7 @@ func runC07(tier string) int {
 		"a moved word 'does not fit' when previous line + space + word (+ overlap when the line would show the prompt and anything follows the word) exceeds maxLineLength",
 		"the word/break sequence of a text is known from the generator's atoms; the compiler's own tokeniser is not consulted")
 	return r.Finish(r.Get("evaluations"), r.Get("nontrivial"),
-		"every sequence of <= L atoms (3 plain words, a multi-byte word, 2 control codes incl. one with an inner space, single/double space, \\n \\l \\p \\N, a raw newline) x 2 synthetic fonts (with/without default width, space width 1 and 3) x numLines 1..3 x cursorOverlap {0,1,3,40} x every maxLineLength from 1 to longest line+1, called through the exported FormatText; plus long texts of K atoms for every K up to the bound in the coverage (3 patterns); plus a cross-product of format() spellings compiled end to end; non-trivial = the output contains >= 1 automatic break")
+		"every sequence of <= L atoms (3 plain words, a multi-byte word, 2 control codes incl. one with an inner space, single/double space, \\n \\l \\p \\N, a raw newline) x 2 synthetic fonts (with/without default width, space width 1 and 3) x numLines 1..3 x cursorOverlap {0,1,3,40} x every maxLineLength from 1 to longest line+1, called through the exported FormatText; plus words containing one representative of every Unicode category / non-ASCII white space / combining mark / astral rune / non-ASCII rune of the compiler's source in sequences of <= 3 atoms; plus long texts of K atoms for every K up to the bound in the coverage (3 patterns); plus a cross-product of format() spellings compiled end to end; non-trivial = the output contains >= 1 automatic break")
 }
 
 // c07EvalSeq makes every call for one atom sequence and judges each result.
